@@ -205,6 +205,8 @@ def global_name(E, name):
 def attribute(E, e):
     st = E.st
     d = dotted(e)
+    if d is not None and d in E.c.externals and E.c.externals[d].get("ghost_value"):
+        return st.vars[E.c.externals[d]["ghost_value"]]  # a property of an un-modelled object, represented by a ghost parameter
     if d is not None and d in E.c.externals and _root(e).id not in st.vars:
         return V("fn", None, items=("external", d, None, None, None), py=d)
     if d is not None and d in E.c.d.get("consts", {}) and _root(e).id not in st.vars:
@@ -1000,6 +1002,10 @@ def call(E, e):
     # 1. dropped sinks (arguments are not evaluated: A-LOG)
     if d is not None and (d.startswith(LOG_SINK_PREFIXES) or d in LOG_SINK_NAMES):
         return NONE
+    if d is None and isinstance(e.func, ast.Attribute) and isinstance(e.func.value, ast.Call):
+        inner = dotted(e.func.value.func)
+        if inner is not None and inner.startswith(LOG_SINK_PREFIXES):
+            return NONE  # logging.getLogger(..).warning(..)
     # 2. spec vocabulary
     if d in SPEC_FUNCS and (st.spec or d in ("ghost_assert",)):
         return SPEC_FUNCS[d](E, e)
@@ -1254,6 +1260,8 @@ def call_by_contract(E, c, fn, mod, selfv, args, kwargs, node):
     if st.spec or st.pure:
         if not c.d.get("pure"):
             raise NeedFork() if st.pure and not st.spec else OutOfSubset(f"impure call {c.qual} in spec")
+    if c.returns is None and any(isinstance(x, ast.Return) and x.value is not None and not (isinstance(x.value, ast.Constant) and x.value.value is None) for x in ast.walk(fn)):
+        raise OutOfSubset(f"contract of {c.qual} is used at a call site but declares no `returns` type")
     env = bind(E, fn, selfv, args, dict(kwargs), mod)
     for nm in st.vars:
         if nm.startswith("$"):
@@ -1370,6 +1378,8 @@ def external_call(E, name, ext, e, recv=None, args=None, kwargs=None):
         oc = {"returns": ext.get("returns", "none"), "ensures": ext.get("ensures", [])}
     if oc.get("finding"):
         E.path_tags.add(oc["finding"])
+    if oc.get("tag"):
+        st.vars["$tag:" + oc["tag"]] = vbool(True)
     ev_args = ([recv] if recv is not None and ext.get("event_recv") else []) + list(args) + [kwargs[k_] for k_ in ext.get("event_kwargs", []) if k_ in kwargs]
     if oc.get("raises"):
         cls = canon_class(E, oc["raises"])
@@ -1855,9 +1865,18 @@ def spec_quant(kind, sort=I):
             saved[n] = st.vars.get(n)
             st.vars[n] = V("real" if q.sort() == R else "int", q)
         st.bound.extend(qs)
+        st.side.append([])
         try:
             body = E.truthy(E.ev(lam.body))
+            side = st.side[-1]
+            if side:
+                # typed-heap facts about the values read under this binder, closed over every bound variable in scope
+                fact = z3.ForAll(list(st.bound), z3.And(*side))
+                if fact.get_id() not in st.side_seen:
+                    st.side_seen.add(fact.get_id())
+                    st.pc.append(fact)
         finally:
+            st.side.pop()
             for _ in qs:
                 st.bound.pop()
             for n in names:
@@ -1997,6 +2016,18 @@ def spec_clsname(E, e):
     return V("str", atom("cls:" + canon_class(E, e.args[0].value)))
 
 
+def spec_clsof(E, e):
+    """clsof(x): dynamic class atom of an object created by a constructor call (compare with clsname-style strings 'cls:Name')"""
+    v = E.ev(e.args[0])
+    return V("str", E.hread("cls", I, v.z))
+
+
+def spec_cast(E, e):
+    """cast(x, 'ClassName'): the same reference viewed at another static class (guard with clsof)"""
+    v = E.ev(e.args[0])
+    return V(("obj", e.args[1].value), v.z)
+
+
 def spec_tag(E, e):
     return E.st.vars.get("$tag:" + e.args[0].value, vbool(False))
 
@@ -2028,6 +2059,8 @@ SPEC_FUNCS = {
     "lemma": spec_lemma,
     "tag": spec_tag,
     "clsname": spec_clsname,
+    "clsof": spec_clsof,
+    "cast": spec_cast,
 }
 
 
